@@ -9,6 +9,8 @@ package logger
 import (
 	"context"
 	"fmt"
+	"io"
+	"log"
 	"os"
 )
 
@@ -160,3 +162,20 @@ func ens_Printf_nil(ctx Context, format string, a []interface{}) bool {
 	}
 	return ghost_line_n() == len(a)+1 && ghost_line_format() == "[%v] "+format && ghost_line_arg(0) == interface{}(os.Getpid())
 }
+
+// ---------- C18: the current writer ----------
+// After Switch(w) the trace, warn and error loggers are new loggers that write to w (info is discarded by design):
+// "the current writer" of the statement is the one installed last, whatever was installed or closed before.
+func ghost_log_out(l *log.Logger) io.Writer { panic("ghost") } // the writer log.New was given
+
+func spec_writesTo(l Logger, w io.Writer) bool {
+	lp, ok := l.(*loggerPlus)
+	return ok && lp != nil && lp.logger != nil && ghost_log_out(lp.logger) == w
+}
+
+//@ ensures Switch C18.switch.current-writer
+func ens_Switch(w io.Writer) bool {
+	return spec_writesTo(Trace, w) && spec_writesTo(Warn, w) && spec_writesTo(Error, w)
+}
+
+//@ assigns Switch global(Info), global(Trace), global(Warn), global(Error), global(previousWriter), global(previousCloser)
